@@ -186,6 +186,33 @@ func genC14Realloc(p *Plan, r *RNG) {
 	p.QuietNS = 10 * sec
 }
 
+// genC14SilentPeer: a TCP allocation whose application once dials a peer that never answers
+// (a host behind a filter that drops SYNs; nothing is lost between client and server). The Dial
+// fails, as it must. The allocation is a live client's all the same: a quarter of an hour later
+// a Dial to a peer that is there has to work.
+func genC14SilentPeer(p *Plan, r *RNG) {
+	baseSrvConfig(p, r)
+	p.Flavor = "e2e-tcprelay-silent-peer"
+	p.Cfg.Listener = "tcp"
+	p.Cfg.Extra = map[string]int64{"tcp_peers": 1, "silent_peer": 1}
+	p.Cfg.LatCSns = int64(r.Range(1, 40))*ms + 3
+	p.Cfg.LatSPns = int64(r.Range(1, 20))*ms + 5
+	p.Cfg.AllocLifeS = r.PickInt([]int{0, 600})
+	p.Clients = []ClientSpec{{ID: "c1", Addr: "10.0.1.1:4000", User: "u1", Pass: "pw-one", Kind: "real"}}
+	p.Peers = []PeerSpec{{ID: "p1", Addr: "10.0.2.1:5000"}, {ID: "p2", Addr: "10.0.2.2:5017"}}
+	add := func(o Op) { p.Ops = append(p.Ops, o) }
+	add(Op{Actor: "c1", Kind: "alloc_tcp", At: gap(sec)})
+	add(Op{Actor: "", Kind: "wait", At: gap(1500 * ms)})
+	if r.Chance(1, 2) {
+		add(Op{Actor: "c1", Kind: "dial", At: gap(int64(r.Range(1, 20)) * sec), A: OpArgs{Peer: p.Peers[0].Addr, Flags: []string{"expect"}}})
+		add(Op{Actor: "c1", Kind: "conn_write", At: gap(sec), A: OpArgs{N: 0, Len: 100}})
+	}
+	add(Op{Actor: "c1", Kind: "dial", At: gap(int64(r.Range(1, 250)) * sec), A: OpArgs{Peer: silentPeerAddr}})
+	add(Op{Actor: "c1", Kind: "dial", At: gap(int64(r.Range(950, 1500)) * sec), A: OpArgs{Peer: p.Peers[1].Addr, Flags: []string{"expect"}}})
+	add(Op{Actor: "", Kind: "wait", At: gap(20 * sec)})
+	p.QuietNS = 30 * sec
+}
+
 func genC14(p *Plan, r *RNG) {
 	if r.Chance(1, 30) {
 		genC14ManyPeers(p, r)
@@ -210,6 +237,10 @@ func genC14(p *Plan, r *RNG) {
 	if r.Chance(1, 8) {
 		// the RFC 6062 allocation of a live client: Dial and Accept hours apart
 		genRealTCP(p, r, true)
+		return
+	}
+	if r.Chance(1, 25) {
+		genC14SilentPeer(p, r)
 		return
 	}
 	baseSrvConfig(p, r)
